@@ -14,6 +14,16 @@
 //   set TYPE v;v;... v;v;...-> S size found-bits                 unordered_set: insert the first list, find every value of the second
 //   map TYPE v;v;... v;v;...-> M size idx,idx,...                unordered_map<TYPE,int>: emplace(v_i, i), then find
 //   a SQ x                  -> A eq hx hy                        a copy of a shared_ptr compares equal and hashes equal
+//   h TYPE CODE a b v;v;... -> HH hz hy EQ e OPS ...... F f1 f2 size LH ...   (TYPE = P or Q) an object with a HISTORY:
+//        built from a, brought to the value b IN PLACE, then compared with a freshly built b (y).  CODE = 4 letters:
+//        1 first use of x   n none | d nitro::lang::hash(x) | s x inserted into and looked up in an unordered_set
+//        2 which object     o x itself | b a copy of x made BEFORE the first use | a a copy of x made AFTER it
+//        3 how it becomes b m member-wise assignment | t assignment through the reference tuple as_tuple() returns
+//                           | w whole-object copy assignment from a fresh b | v move assignment from a fresh b
+//        4 observed object  - the object itself | c a copy constructed from it | k an object move-constructed from it
+//        hz hy  hash words of the observed object z and of the fresh y;  e, OPS: z == y and the six operators (z, y);
+//        f1: a set holding the fillers v;v;... and a fresh b finds z;  f2: a set holding the fillers and z finds y;
+//        size: size of that second set after y has been inserted too (z and y are equal: it must not grow)
 #include "common.hpp"
 #include <nitro/lang/hash.hpp>
 #include <nitro/lang/tuple_operators.hpp>
@@ -356,6 +366,75 @@ template <typename T> std::string run_typed(const std::vector<std::string>& w)
     return "BADCASE";
 }
 
+// ------------------------------------------------------------------ objects with a history (P and Q)
+template <typename T> struct Mut;
+template <> struct Mut<P>
+{
+    static void members(P& x, const P& b) { x.i = b.i; x.s = b.s; x.d = b.d; }
+    static void tie(P& x, const P& b) { x.as_tuple() = std::make_tuple(b.i, b.s, b.d); }
+};
+template <> struct Mut<Q>
+{
+    static void members(Q& x, const Q& b) { x.h = b.h; x.p.i = b.p.i; x.p.s = b.p.s; x.p.d = b.p.d; }
+    static void tie(Q& x, const Q& b) { std::get<0>(x.as_tuple()) = b.h; Mut<P>::tie(std::get<1>(x.as_tuple()), b.p); }
+};
+template <typename T> std::string run_history(const std::vector<std::string>& w)
+{
+    if (w.size() != 6 || w[2].size() != 4) return "BADCASE";
+    const char first = w[2][0], which = w[2][1], how = w[2][2], post = w[2][3];
+    std::vector<std::uint64_t> la, lb, ignore;
+    auto x = parse_all<T>(w[3], la);
+    auto bsrc = parse_all<T>(w[4], lb);    // source of the new member values; never hashed
+    auto y = parse_all<T>(w[4], ignore);   // the fresh object to compare with
+    auto y2 = parse_all<T>(w[4], ignore);  // another fresh one, stored in the first set
+    std::vector<T> fill1, fill2;
+    if (!x || !bsrc || !y || !y2 || !parse_list<T>(w[5], fill1) || !parse_list<T>(w[5], fill2)) return "BADCASE";
+    std::unique_ptr<T> before;
+    if (which == 'b') before = std::make_unique<T>(*x);
+    nl::unordered_set<T> s0;
+    switch (first)
+    {
+    case 'n': break;
+    case 'd': (void)nl::hash(*x); break;
+    case 's': s0.insert(*x); if (s0.find(*x) == s0.end()) return "HH FIRST-LOOKUP-MISSES"; break;
+    default: return "BADCASE";
+    }
+    std::unique_ptr<T> after;
+    if (which == 'a') after = std::make_unique<T>(*x);
+    T* target = which == 'o' ? x.get() : which == 'b' ? before.get() : which == 'a' ? after.get() : nullptr;
+    if (!target) return "BADCASE";
+    switch (how)
+    {
+    case 'm': Mut<T>::members(*target, *bsrc); break;
+    case 't': Mut<T>::tie(*target, *bsrc); break;
+    case 'w': *target = *bsrc; break;
+    case 'v': *target = std::move(*bsrc); break;
+    default: return "BADCASE";
+    }
+    std::unique_ptr<T> moved;
+    T* z = target;
+    if (post == 'c') { moved = std::make_unique<T>(*target); z = moved.get(); }
+    else if (post == 'k') { moved = std::make_unique<T>(std::move(*target)); z = moved.get(); }
+    else if (post != '-') return "BADCASE";
+    std::string r = "HH " + hex16(nl::hash(*z)) + " " + hex16(nl::hash(*y));
+    {
+        const T& a = *z; const T& b = *y;
+        r += std::string(" EQ ") + (a == b ? "1" : "0") + " OPS ";
+        r += (a < b ? '1' : '0'); r += (a <= b ? '1' : '0'); r += (a > b ? '1' : '0');
+        r += (a >= b ? '1' : '0'); r += (a == b ? '1' : '0'); r += (a != b ? '1' : '0');
+    }
+    nl::unordered_set<T> s1, s2;
+    for (auto& v : fill1) s1.insert(v);
+    s1.insert(*y2);
+    bool f1 = s1.find(*z) != s1.end();
+    for (auto& v : fill2) s2.insert(v);
+    s2.insert(*z);
+    bool f2 = s2.find(*y) != s2.end();
+    s2.insert(*y);
+    r += std::string(" F ") + (f1 ? "1" : "0") + " " + (f2 ? "1" : "0") + " " + std::to_string(s2.size());
+    return r + " LH " + lh_str(la, lb);
+}
+
 using T3 = std::tuple<int, std::string, double>;
 using T0 = std::tuple<>;
 using T1 = std::tuple<std::string>;
@@ -408,6 +487,7 @@ static std::string run_case(const std::vector<std::string>& w)
     }
     if (w.size() < 3) return "BADCASE";
     const std::string& t = w[1];
+    if (w[0] == "h") return t == "P" ? run_history<P>(w) : t == "Q" ? run_history<Q>(w) : std::string("BADCASE");
 #define TY(name, type) if (t == name) return run_typed<type>(w);
     TY("P", P) TY("Q", Q) TY("R", R) TY("E", E) TY("N", N)
     TY("T3", T3) TY("T0", T0) TY("T1", T1) TY("TI2", TI2) TY("TN", TN)
